@@ -28,6 +28,8 @@ DECIDED_R7 = ('Round 7: request.copy() takes only the copied environ and the con
 DECIDED = DECIDED + ' ' + DECIDED_R7
 DECIDED_R8 = ('Round 8: the error renderer reads no interpreter-written slot (__context__, __cause__, __traceback__); shared writes cover Route / RouteMethod objects built by the router.')
 DECIDED = DECIDED + ' ' + DECIDED_R8
+DECIDED_R9 = ('Round 9: stores into a mutable default argument and into `cls.x` / `self.__class__.x` are shared writes (d).')
+DECIDED = DECIDED + ' ' + DECIDED_R9
 NOT_DECIDED = ('user handler code; C-level atomicity of dict/list operations (assumed); equality of each response with the one '
                'served alone is implied by confinement only for framework state, not proved for arbitrary handlers.')
 ASSUMPTIONS = ['builtin container operations are atomic under the GIL', 'threading.local gives each thread its own attributes',
